@@ -313,6 +313,7 @@ class BaseModel(SolverMixin, ModelInterface):
                     f'in period with label: {self.span[t]} (index: {t})'
                 ) from e
 
+        iteration = 0  # Remains zero if `max_iter` allows no iterations
         for iteration in range(1, max_iter + 1):
             previous_values = current_values.copy()
 
